@@ -30,7 +30,7 @@ var c07Faults = []struct{ Point, Kind string }{
 	{"backend", "short-content-length"}, {"backend", "rst-mid-chunk"}, {"backend", "bad-chunk-size"}, {"backend", "one-byte-then-trailers"}, {"backend", "lying-content-encoding"},
 	{"backend-h2", "abort-before-headers"}, {"backend-h2", "abort-mid-body"}, {"backend-h2", "huge-headers"}, {"backend-h2", "slow-then-abort"},
 	{"upload", "500x3"}, {"upload", "404"}, {"upload", "reset-at-0"}, {"upload", "reset-at-4096"}, {"upload", "reset-at-end"}, {"upload", "stall"},
-	{"shim", "data-malformed-json"}, {"shim", "data-unknown-session"}, {"shim", "poll-unknown-session"}, {"shim", "close-unknown-session"}, {"shim", "open-backend-refuses-upgrade"}, {"shim", "open-slow-failure-overlapping-opens"}, {"shim", "backend-closes-session-normally"}, {"shim", "backend-closes-session-going-away"}, {"shim", "open-malformed-url"}, {"shim", "data-wrong-shape"},
+	{"shim", "data-malformed-json"}, {"shim", "data-unknown-session"}, {"shim", "poll-unknown-session"}, {"shim", "close-unknown-session"}, {"shim", "open-backend-refuses-upgrade"}, {"shim", "open-slow-failure-overlapping-opens"}, {"shim", "malformed-data-on-live-session"}, {"shim", "backend-closes-session-normally"}, {"shim", "backend-closes-session-going-away"}, {"shim", "open-malformed-url"}, {"shim", "data-wrong-shape"},
 }
 
 type c07Lane struct {
@@ -134,6 +134,9 @@ func c07Lane_(r *core.Run, agentBin string, md *fakes.Metadata, li int, ln c07La
 	}
 	defer px.Close()
 	px.ListWait = 30 * time.Millisecond
+	if ln.name == "plain" {
+		px.Relist = true // App Engine style: an ID stays listed until its response has arrived
+	}
 	var listFault atomic.Value // string: fault for the next list call
 	listFault.Store("")
 	var fmu sync.Mutex
@@ -309,7 +312,11 @@ func c07Lane_(r *core.Run, agentBin string, md *fakes.Metadata, li int, ln c07La
 	var probes, probeFails int64
 	var pwg sync.WaitGroup
 	probe := func(tok string, size int) (bool, string) {
-		px.Enqueue(tok, tokRequest("GET", tok, size, 0, "c07.example", nil, nil), "")
+		delay := 0
+		if tokHash(tok)%4 == 0 {
+			delay = 40 // stays in flight across several list calls
+		}
+		px.Enqueue(tok, tokRequest("GET", tok, size, delay, "c07.example", nil, nil), "")
 		up, ok := px.Wait(tok, 20*time.Second)
 		if !ok || up.Resp == nil {
 			return false, "no complete response uploaded within 20s"
@@ -503,6 +510,42 @@ func c07Lane_(r *core.Run, agentBin string, md *fakes.Metadata, li int, ln c07La
 				}
 			case "shim":
 				var body, path string
+				if f.Kind == "malformed-data-on-live-session" {
+					// a healthy session receives malformed data calls; each may fail, the session must keep working
+					tag := fmt.Sprintf("live%d-%d", li, inj)
+					upo, ok := shimCall(tag+"-open", "/shim/open", "ws://x/ws/echo/"+tag, rawhttp.Field{Name: "X-Websocket-Shim-Version", Value: "1"})
+					if ok && upo.Resp.Status == 200 {
+						var om struct {
+							ID string `json:"id"`
+						}
+						json.Unmarshal(upo.Resp.Body, &om)
+						bads := []string{
+							fmt.Sprintf(`[{"id":%q,"msg":["!!!not-base64!!!"]}]`, om.ID),
+							fmt.Sprintf(`[{"id":%q,"msg":{"an":"object"}}]`, om.ID),
+							fmt.Sprintf(`[{"id":%q,"msg":["a","b"]}]`, om.ID),
+							fmt.Sprintf(`[{"id":%q,"msg":12345}]`, om.ID),
+							fmt.Sprintf(`[{"id":%q}]`, om.ID),
+						}
+						for k, bad := range bads {
+							shimCall(fmt.Sprintf("%s-bad%d", tag, k), "/shim/data", bad)
+							msg := fmt.Sprintf("after-bad-%d", k)
+							d, _ := json.Marshal([]map[string]interface{}{{"id": om.ID, "msg": msg}})
+							upd, okd := shimCall(fmt.Sprintf("%s-good%d", tag, k), "/shim/data", string(d))
+							var gotm []interface{}
+							upp, okp := shimCall(fmt.Sprintf("%s-poll%d", tag, k), "/shim/poll", fmt.Sprintf(`{"id":%q}`, om.ID))
+							if okp {
+								json.Unmarshal(upp.Resp.Body, &gotm)
+							}
+							if !okd || upd.Resp.Status != 200 || !okp || upp.Resp.Status != 200 || len(gotm) != 1 || gotm[0] != "echo:"+tag+":"+msg {
+								r.Violate("C07:healthy-shim-session-disturbed:"+ln.name+":after-malformed-data", fmt.Sprintf("config %s: after the malformed data call %s on live session %s, a well-formed exchange on the same session failed (data ok=%v, poll ok=%v, got %v)", ln.name, bad, om.ID, okd, okp, gotm), nil, nil)
+								break
+							}
+						}
+						shimCall(tag+"-close", "/shim/close", fmt.Sprintf(`{"id":%q}`, om.ID))
+					}
+					r.Case(fmt.Sprintf("%s|%s|%s", ln.name, f.Point, f.Kind))
+					continue
+				}
 				switch f.Kind {
 				case "data-malformed-json":
 					path, body = "/shim/data", `[{"id": "1", "msg": `
@@ -581,6 +624,19 @@ func c07Lane_(r *core.Run, agentBin string, md *fakes.Metadata, li int, ln c07La
 	}
 	close(stop)
 	pwg.Wait()
+	if !ln.h2 {
+		count := map[string]int{}
+		for _, sn := range backend.Seen() {
+			if strings.HasPrefix(sn.Tok, fmt.Sprintf("p%ds%d", li, r.Seed)) {
+				count[sn.Tok]++
+			}
+		}
+		for tok, n := range count {
+			if n > 1 {
+				r.Violate("C07:healthy-request-forwarded-twice:"+ln.name, fmt.Sprintf("config %s: healthy request %s reached the backend %d times while faults were being injected", ln.name, tok, n), nil, nil)
+			}
+		}
+	}
 	r.Add("healthy_probes", int(atomic.LoadInt64(&probes)))
 	r.Add("healthy_shim_sessions", int(atomic.LoadInt64(&shimProbes)))
 	r.Add("fault_injections", inj)
